@@ -21,7 +21,8 @@ CONSTANTS
   IdKinds = {}
   TabShapes = {}
   SrcDims = {}
-  MaxDev = 14
+  NoiseKinds = {}
+  MaxDev = 15
   Deviations = {}
 INVARIANT Conforms
 """
@@ -40,11 +41,11 @@ def valid(r):
 
 def run(ctx):
     q = ctx.quick
-    ctx.rule = ("TLC enumerates every design with at most 2 (3 in the thorough tier) attributes off the valid base over 14 attribute "
+    ctx.rule = ("TLC enumerates every design with at most 2 (3 in the thorough tier) attributes off the valid base over 15 attribute "
                 "classes of SimDesign.tla (visit type, patient number kinds incl. a single individual, standard deviations, mean / std of "
                 "the interval between visits incl. a std comparable to the mean, minimal spacing, follow-up zero / decades long, feature "
                 "list kinds, missing parameter, table columns / null ages / identifier typing / rows out of order with a repeated age / "
-                "ages decades after onset, model with / without sources) and checks Honoured (valid => completes, invalid => refused) on the intended design; every "
+                "ages decades after onset, model with / without sources, per-feature noise just fitted / scalar noise loaded from a file) and checks Honoured (valid => completes, invalid => refused) on the intended design; every "
                 "enumerated design is made concrete and run on a real fitted logistic model under a 10 s alarm watchdog; TLC compares "
                 "the outcome class (completes / refused with the algorithm-input error / crash class / timeout) with Outcome "
                 "(the ten deviations of the tree as given were repaired) and checks the post-conditions of completed runs: exact individuals, unique increasing "
